@@ -340,7 +340,7 @@ Proof. rewrite dy_toQ_sub, dy_toQ_mul, dy_toQ_ofZ. reflexivity. Qed.
 Lemma c12_check_iff : forall tol m rows s g pmin pmax,
   c12_check tol m (enum_dy rows) s g pmin pmax = 0%Z <->
   (let q := dy_toQ in
-   q pmin <= q pmax /\ 0 <= q pmin /\ q pmax <= q one_eps20 * q tol /\
+   q pmin <= q pmax /\ 0 <= q pmin /\ q pmax <= 1 /\
    T rows (q s + inject_Z (m + 1) * q g) <= q pmin * q tol /\
    q pmax <= T rows (q s - inject_Z (m + 2) * q g) * q tol).
 Proof.
@@ -348,10 +348,11 @@ Proof.
   rewrite <- (T_comp rows _ _ (c12_up_toQ m s g)).
   rewrite <- (T_comp rows _ _ (c12_dn_toQ m s g)).
   rewrite <- !tail_dy_T. rewrite <- !dy_toQ_mul. rewrite <- dy_toQ_0.
+  rewrite <- (dy_toQ_1) at 1.
   rewrite <- !dy_leb_iff.
   destruct (dy_leb pmin pmax); cbn [negb]; [|split; [discriminate|intros [H _]; discriminate H]].
   destruct (dy_leb dy0 pmin); cbn [negb]; [|split; [discriminate|intros [_ [H _]]; discriminate H]].
-  destruct (dy_leb pmax (dy_mul one_eps20 tol)); cbn [negb];
+  destruct (dy_leb pmax dy1); cbn [negb];
     [|split; [discriminate|intros [_ [_ [H _]]]; discriminate H]].
   destruct (dy_leb _ (dy_mul pmin tol)); cbn [negb];
     [|split; [discriminate|intros [_ [_ [_ [H _]]]]; discriminate H]].
@@ -363,14 +364,14 @@ Qed.
 Lemma c12_check_sound : forall tol m rows s g pmin pmax,
   c12_check tol m (enum_dy rows) s g pmin pmax = 0%Z ->
   let q := dy_toQ in
-  q pmin <= q pmax /\ 0 <= q pmin /\ q pmax <= q one_eps20 * q tol /\
+  q pmin <= q pmax /\ 0 <= q pmin /\ q pmax <= 1 /\
   T rows (q s + inject_Z (m + 1) * q g) <= q pmin * q tol /\
   q pmax <= T rows (q s - inject_Z (m + 2) * q g) * q tol.
 Proof. intros tol m rows s g pmin pmax H. apply c12_check_iff. exact H. Qed.
 
 Lemma c12_check_complete : forall tol m rows s g pmin pmax,
   (let q := dy_toQ in
-   q pmin <= q pmax /\ 0 <= q pmin /\ q pmax <= q one_eps20 * q tol /\
+   q pmin <= q pmax /\ 0 <= q pmin /\ q pmax <= 1 /\
    T rows (q s + inject_Z (m + 1) * q g) <= q pmin * q tol /\
    q pmax <= T rows (q s - inject_Z (m + 2) * q g) * q tol) ->
   c12_check tol m (enum_dy rows) s g pmin pmax = 0%Z.
